@@ -39,7 +39,9 @@
       local, remote = ((commit ...) (table ...) ((name id) ...))
       op     = (0 gforce depth k p tb (spec ...) fault?)   fetch;  spec  = (force glob src dst) as in C10
              | (1 gforce p (pitem ...) fault?)             push;   pitem = (force (src)? dst)
-      fault  = (mode phase j), see [fault] below; absent = none
+      fault  = (mode phase j), see [fault] below; absent or (0 0 0) = none; modes 3 and 4 are the persistent faults
+      a push may end with a 6th element src: how the local remote-tracking refs came about - 0 plain refs,
+      1 fetched from the remote they are named after, 2 the source remote is gone (no such refs), 3 renamed
       obs    = (outcome local' remote')   outcome 0 ok | 1 error; states with sorted commit / table lists
                and refs ((name id) ...) sorted by name *)
 From Coq Require Import List NArith Bool String.
@@ -416,6 +418,26 @@ Definition fetch_f (g : cgraph) (local remote : repo) (specs : list refspec) (gf
            (depth k p : nat) (table_nego : bool) (f : fault) : N * repo :=
   let normal := fetch g local remote specs gforce depth k p table_nego in
   if f_mode f =? 0 then normal
+  else if (f_mode f =? 3) || (f_mode f =? 4) then
+    (* PERSISTENT faults: every packfile answer of upload-pack, on every attempt, is
+         3 = cut inside the body of its last object (ReadObject: unexpected EOF - not retryable): the objects
+             before the cut are stored, the command fails, no ref is written;
+         4 = lost (connection reset).  fetch.Fetch retries a stream reset WITHOUT BOUND; the reference server's
+             watchdog ends the exchange: nothing is stored, the command fails, no ref is written. *)
+    let adv := map fi_new (fst (resolve_fetch specs (listing (r_refs remote)))) in
+    match session_view g local remote adv depth k p table_nego with
+    | None => normal
+    | Some (wants, _, packs) =>
+      if f_mode f =? 4 then (1, local)
+      else match packs with
+           | [] => normal
+           | p1 :: _ =>
+             match receive g (r_objs local) wants (removelast p1) with
+             | Some (o', _) => (1, mk_repo o' (r_refs local))
+             | None => (1, local)
+             end
+           end
+    end
   else if f_phase f =? 1 then (1, local)
   else
     let adv := map fi_new (fst (resolve_fetch specs (listing (r_refs remote)))) in
@@ -525,6 +547,36 @@ Definition t_repo (r : repo) : tree :=
 
 Definition pack_param (n : nat) : nat := match n with O => 2000%nat | _ => n end.
 
+(** NewReceivePackSession refuses to send a commit whose table is not stored locally (NewShallowCommitError);
+    true = this push is refused for that reason *)
+Definition push_shallow_refused (g : cgraph) (local remote : repo) (items : list pitem) (gforce : bool) : bool :=
+  let ia := is_ancestor (to_graph g) in
+  match identify_updates ia gforce (r_refs local) (listing (r_refs remote)) items with
+  | None => false
+  | Some (us, _) =>
+    match us with
+    | [] => false
+    | _ =>
+      let wants := flat_map (fun u => match u_new u with Some c => [c] | None => [] end) us in
+      let known := reachable g local in
+      if negb (forallb (fun w => cmem w known && cmem (ctbl g w) (o_tables (r_objs local))) wants)
+      then false else
+      let commons := filter (fun h => cmem h known) (map snd (listing (r_refs remote))) in
+      existsb (fun o => match o with
+                        | OCommit c => negb (cmem (ctbl g c) (o_tables (r_objs local)))
+                        | OTable _ => false end)
+              (plan g (r_objs local) wants commons O (o_tables (r_objs remote)))
+    end
+  end.
+
+(** [source_known] = false: the refusal cannot name a remote to fetch the missing tables from (the remote-tracking
+    refs the shallow commits came through are gone); the code then panics instead of returning the error:
+    outcome 2, nothing sent either way. *)
+Definition push_k (source_known : bool) (g : cgraph) (local remote : repo) (items : list pitem)
+           (gforce : bool) (p : nat) (f : fault) : N * repo :=
+  if negb source_known && push_shallow_refused g local remote items gforce then (2, remote)
+  else push_f g local remote items gforce p f.
+
 Definition d_fault (t : tree) : fault :=
   mk_fault (d_N (d_nth 0 t)) (d_N (d_nth 1 t)) (d_nat (d_nth 2 t)).
 
@@ -541,7 +593,7 @@ Definition run_C09 (t : tree) : tree :=
                               (negb (d_N (d_nth 5 op) =? 0)) (d_fault (d_nth 7 op)) in
     Node [Leaf out; t_repo l'; t_repo remote]
   | _ =>
-    let '(out, r') := push_f g local remote (d_list d_pitem (d_nth 3 op)) (d_bool (d_nth 1 op))
-                             (pack_param (d_nat (d_nth 2 op))) (d_fault (d_nth 4 op)) in
+    let '(out, r') := push_k (negb (d_N (d_nth 5 op) =? 2)) g local remote (d_list d_pitem (d_nth 3 op))
+                             (d_bool (d_nth 1 op)) (pack_param (d_nat (d_nth 2 op))) (d_fault (d_nth 4 op)) in
     Node [Leaf out; t_repo local; t_repo r']
   end.
